@@ -20,10 +20,17 @@
   What is proved: from ANY socket state satisfying `RInv` (in particular the state right after the peer's connect message
   has been consumed, see the examples), for EVERY history of `OpOk` operations, with `D + |W| + 2 < 2^31`
   (32-bit sequence numbers cannot tell arbitrarily delayed duplicates apart beyond that).
-  What is not covered: the handshake phase itself (LISTEN / SYN-SENT up to the consumption of the connect message); see
-  the note at `C08_recv_stream_prefix_partial`.
+  Send side (N-send): `runS` accumulates the bytes `send` reported as accepted; `C08_sender_segments_from_stream` says
+  every packet ever written, from `Sock.init` on and for EVERY history (hostile incoming packets included), carries the
+  slice of `ctl ++ sent` at an absolute position congruent to its sequence number (`ctl` = the connect message).
+  Handshake: `C08_handshake_establishes_invariant` (a packet on an untouched LISTEN / SYN-SENT socket leaves it untouched
+  or establishes `RInv`), and `C08_recv_stream_prefix_from_init_partial`: (N-recv)+(E) for every history from
+  `Sock.init`, under the execution hypothesis `GoodRun` (see there for why it is needed).
 -/
 import Nice.Proofs.PTcpStreamRecv
+import Nice.Proofs.PTcpStreamSnd5
+import Nice.Proofs.PTcpStreamHs
+import Nice.Proofs.PTcpStreamPre
 namespace Nice.Props.C08
 open Nice.PTcp Nice.Gen Nice.Proofs.PTcp Nice.Proofs.PTcpStream
 
@@ -103,6 +110,116 @@ theorem C08_recv_eos_means_all_read_partial (W : List UInt8) (D : Nat) (hB : D +
   rw [a3]
   have : n = W.length := by omega
   rw [this, List.take_length]
+
+/-- **C08_handshake_establishes_invariant.**  The handshake step: on a socket in LISTEN or SYN-SENT whose receive side is
+    untouched (nothing committed, nothing stored out of order, receive ring at least as large as the peer's connect
+    message), every honest packet either leaves `rcv_nxt = 0` or — the peer's connect message, when its data stage is
+    reached — establishes the stream invariant with nothing read yet.  (`D ≤ DEFAULT_RCV_BUF_SIZE`: `parse_options` may
+    fall back to the default ring.) -/
+theorem C08_handshake_establishes_invariant (W : List UInt8) (D : Nat) (hD : D ≤ DEFAULT_RCV_BUF_SIZE) (s : Sock)
+    (hst : s.state = .listen ∨ s.state = .synSent) (hfok : FOk s.rbuf) (hnx : s.rcv_nxt = 0)
+    (hdz : s.rbuf.data = 0) (hrl : s.rlist = []) (hcap : D ≤ s.rbuf.buf.size)
+    (hfin : s.rcv_fin = 0 ∨ s.rcv_fin.toNat = D + W.length)
+    (p : Array UInt8) (hp : PktOk W D p) (clk : UInt32) (r : Bool × Sock) (h : notifyPacket s p clk = .ok r) :
+    r.2.rcv_nxt = 0 ∨ RInv W D 0 r.2 :=
+  handshake_establishes_rinv W D hD s hst hfok hnx hdz hrl hcap hfin p hp clk r h
+
+/-- Boolean form of `GoodRun`, for concrete histories -/
+def goodRunB (s : Sock) : List (UInt32 × Op) → Bool
+  | [] => true
+  | (clk, op) :: rest =>
+    match stepG s clk op with
+    | .ok (s', _) =>
+      (s'.rcv_nxt != 0 || decide (s'.state = .listen) || decide (s'.state = .synSent) || decide (s'.state = .closed)) &&
+        goodRunB s' rest
+    | .error _ => true
+
+theorem goodRunB_sound (ops : List (UInt32 × Op)) : ∀ s, goodRunB s ops = true → GoodRun s ops := by
+  induction ops with
+  | nil => intro _ _; trivial
+  | cons x rest ih =>
+    intro s h
+    obtain ⟨clk, op⟩ := x
+    intro s' b hs
+    simp only [goodRunB, hs, Bool.and_eq_true, Bool.or_eq_true, bne_iff_ne, ne_eq, decide_eq_true_eq] at h
+    refine ⟨?_, ih s' h.2⟩
+    intro h0
+    rcases h.1 with ((h1 | h1) | h1) | h1
+    · exact absurd h0 h1
+    · exact Or.inl h1
+    · exact Or.inr (Or.inl h1)
+    · exact Or.inr (Or.inr h1)
+
+/-- **C08_recv_stream_prefix_from_init_partial (N-recv and E from a fresh socket).**  For every history of operations on
+    `Sock.init conv` — handshake included: `connect`, clocks, `recv`, buffer / MTU settings, `shutdown`, `close`, honest
+    packets in any order with duplicates and losses — everything `recv` has returned is a prefix of `W`, and in a
+    FIN-received state all of `W` has been committed.
+    `_partial`, with exactly these hypotheses: `D + |W| + 2 < 2^31`; `D ≤ DEFAULT_RCV_BUF_SIZE` and every `setRcvBuf`
+    keeps the ring at least `D` bytes (`OpOk0`); and `GoodRun`: after every step, a socket that is no longer in
+    LISTEN / SYN-SENT / CLOSED has consumed the peer's connect message (`rcv_nxt ≠ 0`).  `GoodRun` fails only when a
+    connect message is dropped after the state change it causes (the `rtt < 0` test, a FIN-flagged connect message, a
+    failed retransmission); without it the model does deliver wrong bytes (see the report). -/
+theorem C08_recv_stream_prefix_from_init_partial (W : List UInt8) (D : Nat) (hB : D + W.length + 2 < 2 ^ 31)
+    (hD : D ≤ DEFAULT_RCV_BUF_SIZE) (conv : UInt32) (ops : List (UInt32 × Op))
+    (hops : ∀ x, x ∈ ops → OpOk0 W D x.2) (hgr : GoodRun (Sock.init conv) ops)
+    (s : Sock) (got : List UInt8) (h : runG (Sock.init conv) [] ops = .ok (s, got)) :
+    got <+: W ∧ (Fin4 s.state → s.rcv_nxt.toNat = D + W.length + 1 ∧ got.length + s.rbuf.data = W.length) := by
+  obtain ⟨n, _, a2, a3, a4⟩ := runG_tot W D hB hD ops (Sock.init conv) 0 s got
+    (Or.inl ⟨rfl, init_pre W D hD conv⟩) (Nat.zero_le _) hops hgr h
+  refine ⟨a3 ▸ List.take_prefix _ _, fun hF => ?_⟩
+  rcases a4 with ⟨_, hm⟩ | a4
+  · exfalso
+    have := hm.stk
+    revert hF
+    rcases this with e | e | e <;> rw [e] <;> (unfold Fin4; simp)
+  · have ⟨b1, b2⟩ := fin4_all_committed W D n s a4 hF
+    refine ⟨b1, ?_⟩
+    rw [a3, List.length_take, Nat.min_eq_left a2]; exact b2
+
+/-- **C08_sender_segments_from_stream (N-send).**  From a fresh socket, for EVERY history of public operations (any
+    incoming packets, honest or not, any clocks, any `WritePacket` results; each `send` of fewer than 2^31 bytes): there
+    is one byte string `ctl` (the connect message, queued at most once and before any data) such that every packet the
+    socket has written so far — all of them are in `s.out`, which is append-only — is a 24-byte header for some sequence
+    number `seq` followed by a payload that is empty or equals the slice of `ctl ++ sent` at an absolute position
+    `k ≡ seq (mod 2^32)`, where `sent` is exactly the concatenation of the bytes `send` reported as accepted.  In
+    particular a retransmission or a re-segmentation can never carry a byte that was not written at that position. -/
+theorem C08_sender_segments_from_stream (conv : UInt32) (ops : List (UInt32 × Op))
+    (hops : ∀ x, x ∈ ops → OpOkS x.2) (s : Sock) (sent : List UInt8)
+    (h : runS (Sock.init conv) [] ops = .ok (s, sent)) :
+    ∃ ctl : List UInt8, ∀ b, Event.packet b ∈ s.out →
+      ∃ (s0 : Sock) (seq : UInt32) (fl : UInt8) (wnd : UInt16) (now : UInt32) (payload : Array UInt8),
+        b = buildHeader s0 seq fl wnd now ++ payload ∧ PktSlice (ctl ++ sent) seq payload := by
+  obtain ⟨⟨ctl, a, f, hi⟩, _⟩ := runS_sg ops (Sock.init conv) [] s sent (init_sg conv) hops h
+  exact ⟨ctl, fun b hb => hi.out _ hb⟩
+
+/-- the same, as an invariant of the send ring: the ring holds `(ctl ++ sent)[a ..]`, `snd_una ≡ a + f` where `a` bytes
+    and `f` FIN positions have been acknowledged -/
+theorem C08_send_ring_is_stream_suffix (conv : UInt32) (ops : List (UInt32 × Op))
+    (hops : ∀ x, x ∈ ops → OpOkS x.2) (s : Sock) (sent : List UInt8)
+    (h : runS (Sock.init conv) [] ops = .ok (s, sent)) :
+    ∃ (ctl : List UInt8) (a f : Nat), a + s.sbuf.data = (ctl ++ sent).length ∧
+      (∀ i, i < s.sbuf.data → byteAt s.sbuf i = (ctl ++ sent).getD (a + i) 0) ∧
+      s.snd_una.toNat = (a + f) % 2 ^ 32 := by
+  obtain ⟨⟨ctl, a, f, hi⟩, _⟩ := runS_sg ops (Sock.init conv) [] s sent (init_sg conv) hops h
+  exact ⟨ctl, a, f, hi.len, hi.com, hi.una⟩
+
+/-- bridge to the receiver's hypothesis: while the stream is shorter than 2^32, a non-empty `PktSlice` payload at a
+    sequence number at or after the connect message is exactly the `data` clause of `SegOk` with `D = |ctl|` -/
+theorem C08_pktSlice_is_segOk_data (ctl W : List UInt8) (seq : UInt32) (payload : Array UInt8)
+    (h : PktSlice (ctl ++ W) seq payload) (hne : payload.size ≠ 0) (hlen : (ctl ++ W).length < 2 ^ 32)
+    (hseq : ctl.length ≤ seq.toNat) :
+    seq.toNat + payload.size ≤ ctl.length + W.length ∧
+      ∀ j, j < payload.size → payload[j]?.getD 0 = W.getD (seq.toNat - ctl.length + j) 0 := by
+  rcases h with h | ⟨k, h1, h2, h3⟩
+  · exact absurd h hne
+  · have hk : k = seq.toNat := by
+      have : k < 2 ^ 32 := by omega
+      omega
+    subst hk
+    rw [List.length_append] at h2
+    refine ⟨h2, fun j hj => ?_⟩
+    rw [h3 j hj, List.getD_eq_getElem?_getD, List.getD_eq_getElem?_getD, List.getElem?_append_right (by omega)]
+    congr 2; omega
 
 /-! ### non-vacuity: the hypotheses are satisfiable, on states the model really reaches -/
 
@@ -208,6 +325,142 @@ example : ∃ s got, runG s1 (W.take 0) ops = .ok (s, got) ∧ got <+: W ∧ Fin
     have hB : 7 + W.length + 2 < 2 ^ 31 := by decide
     exact ⟨s, got, h, (C08_recv_stream_prefix_partial W 7 hB s1 0 s1_rinv (Nat.zero_le _) ops ops_ok s got h).1, hF,
       (C08_eos_after_all_data_partial W 7 hB s1 0 s1_rinv (Nat.zero_le _) ops ops_ok s got h hF).2⟩
+
+theorem ctlPkt_ok : PktOk W 7 ctlPkt :=
+  pktOk_of_hdr W 7 ctlPkt
+    { conv := 0, seq := 0, ack := 0, flags := 2, wnd := 100, dataOff := 24, len := 7, tsval := 0, tsecr := 0 }
+    (by decide +kernel) ⟨fun _ => Or.inr ⟨rfl, rfl⟩, fun h => absurd h (by decide), fun h => absurd rfl h⟩
+
+/-- the same schedule from a fresh socket: a premature `recv` and a clock tick, the peer's connect message, then `ops` -/
+def ops0 : List (UInt32 × Op) := (3, .recv 10) :: (4, .clock) :: (5, .packet ctlPkt) :: ops
+
+theorem ops0_ok : ∀ x, x ∈ ops0 → OpOk0 W 7 x.2 := by
+  intro x hx
+  unfold ops0 at hx
+  rcases List.mem_cons.mp hx with rfl | hx; exact True.intro
+  rcases List.mem_cons.mp hx with rfl | hx; exact True.intro
+  rcases List.mem_cons.mp hx with rfl | hx; exact ctlPkt_ok
+  unfold ops at hx
+  rcases List.mem_cons.mp hx with rfl | hx; exact tailPkt_ok
+  rcases List.mem_cons.mp hx with rfl | hx; exact finPkt_ok
+  rcases List.mem_cons.mp hx with rfl | hx; exact True.intro
+  rcases List.mem_cons.mp hx with rfl | hx; exact dataPkt_ok
+  rcases List.mem_cons.mp hx with rfl | hx; exact dataPkt_ok
+  rcases List.mem_cons.mp hx with rfl | hx; exact True.intro
+  rcases List.mem_cons.mp hx with rfl | hx; exact True.intro
+  rcases List.mem_cons.mp hx with rfl | hx; exact True.intro
+  rcases List.mem_cons.mp hx with rfl | hx; exact True.intro
+  cases hx
+
+set_option maxRecDepth 100000 in
+/-- the handshake hypothesis holds along this history, which runs without a fault and returns `abc` -/
+theorem ops0_run : (goodRunB (Sock.init 0) ops0 && match runG (Sock.init 0) [] ops0 with
+    | .ok (_, got) => got == W
+    | .error _ => false) = true := by decide +kernel
+
+/-- (N-recv from `Sock.init`) instantiated: all hypotheses hold for this history -/
+example : ∃ s got, runG (Sock.init 0) [] ops0 = .ok (s, got) ∧ got = W ∧ got <+: W := by
+  have hr := ops0_run
+  rw [Bool.and_eq_true] at hr
+  cases h : runG (Sock.init 0) [] ops0 with
+  | error e => rw [h] at hr; cases hr.2
+  | ok v =>
+    obtain ⟨s, got⟩ := v
+    rw [h] at hr
+    have hg : got = W := by simpa using hr.2
+    exact ⟨s, got, rfl, hg, (C08_recv_stream_prefix_from_init_partial W 7 (by decide) (by decide) 0 ops0 ops0_ok
+      (goodRunB_sound ops0 _ hr.1) s got h).1⟩
+
+/-- header with an acknowledgement number -/
+def hdrA (seq ack : UInt32) (flags : UInt8) : Array UInt8 :=
+  push32 (push32 (push16 ((push32 (push32 (push32 #[] 0) seq) ack).push 0 |>.push flags) 100) 0) 0
+
+/-- the peer's connect message acknowledging ours -/
+def replyPkt : Array UInt8 := hdrA 0 7 2 ++ #[0, 3, 1, 0, 254, 1, 0]
+
+/-- active open, handshake, two `send`s -/
+def opsS : List (UInt32 × Op) :=
+  [(5, .connect), (6, .packet replyPkt), (7, .send #[97, 98, 99]), (8, .send #[100])]
+
+theorem opsS_ok : ∀ x, x ∈ opsS → OpOkS x.2 := by
+  intro x hx
+  unfold opsS at hx
+  rcases List.mem_cons.mp hx with rfl | hx; exact True.intro
+  rcases List.mem_cons.mp hx with rfl | hx; exact True.intro
+  rcases List.mem_cons.mp hx with rfl | hx; exact (by decide : (3 : Nat) < 2 ^ 31)
+  rcases List.mem_cons.mp hx with rfl | hx; exact (by decide : (1 : Nat) < 2 ^ 31)
+  cases hx
+
+set_option maxRecDepth 100000 in
+/-- the history runs in the model, `send` accepted `abcd`, and four events were logged (connect message, `opened`
+    callback, two data packets) -/
+theorem opsS_run : (match runS (Sock.init 0) [] opsS with
+    | .ok (s, sent) => sent == [97, 98, 99, 100] && s.out.size == 4 && decide (s.state = .established)
+    | .error _ => false) = true := by decide +kernel
+
+/-- (N-send) instantiated: all hypotheses hold for this history -/
+example : ∃ s sent, runS (Sock.init 0) [] opsS = .ok (s, sent) ∧ sent = [97, 98, 99, 100] ∧
+    ∃ ctl : List UInt8, ∀ b, Event.packet b ∈ s.out →
+      ∃ (s0 : Sock) (seq : UInt32) (fl : UInt8) (wnd : UInt16) (now : UInt32) (payload : Array UInt8),
+        b = buildHeader s0 seq fl wnd now ++ payload ∧ PktSlice (ctl ++ sent) seq payload := by
+  have hr := opsS_run
+  cases h : runS (Sock.init 0) [] opsS with
+  | error e => rw [h] at hr; cases hr
+  | ok v =>
+    obtain ⟨s, sent⟩ := v
+    rw [h] at hr
+    simp only [Bool.and_eq_true, beq_iff_eq, decide_eq_true_eq] at hr
+    exact ⟨s, sent, rfl, hr.1.1, C08_sender_segments_from_stream 0 opsS opsS_ok s sent h⟩
+
+/-! #### why `GoodRun` is needed: a kernel-checked counterexample without it
+
+  Active open; the peer's connect message arrives with a timestamp echo in the future (`rtt < 0`: `process` returns after
+  the state has already moved to ESTABLISHED, `rcv_nxt` stays 0); `abcdef` at sequence number 7 is then stored out of
+  order at ring offset 7; the connect message arrives again and is consumed (`rcv_nxt = 7`, the stored range now sits at
+  the wrong offset); `abc` at 7 is committed and the `rlist` recovery commits three more bytes that were never written. -/
+
+def hdrT (seq ack : UInt32) (flags : UInt8) (tsecr : UInt32) : Array UInt8 :=
+  push32 (push32 (push16 ((push32 (push32 (push32 #[] 0) seq) ack).push 0 |>.push flags) 100) 0) tsecr
+def badReply : Array UInt8 := hdrT 0 7 2 5000 ++ #[0, 3, 1, 0, 254, 1, 0]
+def goodReply : Array UInt8 := hdrT 0 7 2 0 ++ #[0, 3, 1, 0, 254, 1, 0]
+def d6 : Array UInt8 := hdrT 7 7 0 0 ++ #[97, 98, 99, 100, 101, 102]
+def d3 : Array UInt8 := hdrT 7 7 0 0 ++ #[97, 98, 99]
+def W6 : List UInt8 := [97, 98, 99, 100, 101, 102]
+
+def opsBad : List (UInt32 × Op) :=
+  [(1000, .connect), (1001, .packet badReply), (1002, .packet d6), (1003, .packet goodReply), (1004, .packet d3),
+   (1005, .recv 100)]
+
+theorem opsBad_ok : ∀ x, x ∈ opsBad → OpOk0 W6 7 x.2 := by
+  intro x hx
+  unfold opsBad at hx
+  rcases List.mem_cons.mp hx with rfl | hx; exact True.intro
+  rcases List.mem_cons.mp hx with rfl | hx
+  · exact pktOk_of_hdr W6 7 badReply
+      { conv := 0, seq := 0, ack := 7, flags := 2, wnd := 100, dataOff := 24, len := 7, tsval := 0, tsecr := 5000 }
+      (by decide +kernel) ⟨fun _ => Or.inr ⟨rfl, rfl⟩, fun h => absurd h (by decide), fun h => absurd rfl h⟩
+  rcases List.mem_cons.mp hx with rfl | hx
+  · exact pktOk_of_hdr W6 7 d6
+      { conv := 0, seq := 7, ack := 7, flags := 0, wnd := 100, dataOff := 24, len := 6, tsval := 0, tsecr := 0 }
+      (by decide +kernel) ⟨fun h => absurd rfl h, fun _ _ => ⟨by decide, by decide, by decide⟩, fun h => absurd rfl h⟩
+  rcases List.mem_cons.mp hx with rfl | hx
+  · exact pktOk_of_hdr W6 7 goodReply
+      { conv := 0, seq := 0, ack := 7, flags := 2, wnd := 100, dataOff := 24, len := 7, tsval := 0, tsecr := 0 }
+      (by decide +kernel) ⟨fun _ => Or.inr ⟨rfl, rfl⟩, fun h => absurd h (by decide), fun h => absurd rfl h⟩
+  rcases List.mem_cons.mp hx with rfl | hx
+  · exact pktOk_of_hdr W6 7 d3
+      { conv := 0, seq := 7, ack := 7, flags := 0, wnd := 100, dataOff := 24, len := 3, tsval := 0, tsecr := 0 }
+      (by decide +kernel) ⟨fun h => absurd rfl h, fun _ _ => ⟨by decide, by decide, by decide⟩, fun h => absurd rfl h⟩
+  rcases List.mem_cons.mp hx with rfl | hx; exact True.intro
+  cases hx
+
+set_option maxRecDepth 100000 in
+/-- every packet is honest (`opsBad_ok`), yet `recv` returns `abc` followed by three zero bytes instead of a prefix of
+    `abcdef`; `GoodRun` is exactly what fails (after the second operation) -/
+theorem dropped_connect_counterexample :
+    ((match runG (Sock.init 0) [] opsBad with
+      | .ok (_, got) => got == [97, 98, 99, 0, 0, 0]
+      | .error _ => false) && !goodRunB (Sock.init 0) opsBad) = true := by decide +kernel
 
 end Example
 
